@@ -33,10 +33,10 @@ def mc_cfg(ordered, resizes, dial, err, contract=True, sequential=False, caps="{
 
 def sim_cfg(resizes=2, dial=5, err=1):
     return ("SPECIFICATION GSpec\nCONSTANTS\n  Size = 9\n  Caps = {1,2,3,4}\n  InitCaps = {1,2,3,4}\n  MaxResize = %d\n  MaxDial = %d\n"
-            "  MaxErr = %d\n  Ordered = FALSE\n" % (resizes, dial, err))
+            "  MaxErr = %d\n  Ordered = FALSE\nACTION_CONSTRAINT UrgentAccept\n" % (resizes, dial, err))
 
 
-ALL_ACTIONS = {"init", "dial", "acq", "accept", "err", "close", "setmax", "tuner", "tdone", "lclose", "acancel", "aabort"}
+ALL_ACTIONS = {"init", "dial", "acq", "accept", "err", "close", "setmax", "tuner", "tdone", "lclose", "acancel", "aabort", "eof"}
 
 TRACE_CFG = ("SPECIFICATION TSpec\nCONSTRAINT HWM\nPOSTCONDITION Accepted\n"
              "INVARIANTS NoAcceptAboveCapObserved CapHoldsWhileUnchanged NeverAboveEveryCap NoDrop ReleaseReusable\n")
@@ -97,7 +97,7 @@ def run(ctx):
 # ------------------------------------------------------------------------------------------ model checking
 def _mc(ctx, state):
     q = ctx.quick
-    rz, dial = (2, 4) if q else (3, 5)
+    rz, dial = (2, 3) if q else (3, 5)
     # (a) the pinned code's model with non-overlapping resizes: every clause of the contract holds
     r = ctx.tlc_mc("ConnCap_Gen", mc_cfg(False, rz, dial, 1, sequential=True), label="impl model, resizes not overlapping: contract + impl invariants",
                    timeout=1500)
@@ -106,7 +106,7 @@ def _mc(ctx, state):
     r = ctx.tlc_mc("ConnCap_Gen", mc_cfg(False, rz, dial, 1, contract=False), label="impl model, overlapping resizes: impl invariants", timeout=1500)
     ctx.log("impl model (overlapping resizes): %d distinct states, conservation/reuse hold" % r.distinct)
     # (c) the same with the contract: TLC decides the F16 lead (a counterexample here is a lead, not a verdict)
-    r = ctx.tlc_mc("ConnCap_Gen", mc_cfg(False, 2, 4, 0), label="impl model, overlapping resizes: contract (lead)", expect_ok=False, count=False,
+    r = ctx.tlc_mc("ConnCap_Gen", mc_cfg(False, 2, 4, 0) + "ACTION_CONSTRAINT UrgentAccept\n", label="impl model, overlapping resizes: contract (lead)", expect_ok=False, count=False,
                    timeout=600)
     if r.ok:
         ctx.log("impl model with unordered tuners satisfies the contract (no lead)")
@@ -151,6 +151,8 @@ def _short(s):
         return "cap=%d" % s["cap"]
     if a == "acq":
         return "acq" + ("(blocks)" if s.get("blocks") else "")
+    if a == "close":
+        return "close(after-eof)" if s.get("eof") else "close"
     return a
 
 
